@@ -44,7 +44,7 @@ func c12ChunkDisk(dir string, i int) (submitted, waiting, complete bool) {
 	return
 }
 
-func c12ClusterRound(c *Ctx, round int, n, k int, order []int, finishBefore int, freshJM bool, doneOrder []int) *c12ClusterOutcome {
+func c12ClusterRound(c *Ctx, round int, n, k int, order []int, finishBefore int, freshJM bool, doneOrder []int, startedMask []bool) *c12ClusterOutcome {
 	dir := filepath.Join(c.Scratch, fmt.Sprintf("cluster%d", round))
 	os.MkdirAll(dir, 0o755)
 	fq := "ID.c12.PIPE.STAGE"
@@ -133,7 +133,17 @@ func c12ClusterRound(c *Ctx, round int, n, k int, order []int, finishBefore int,
 			waitingIdx = append(waitingIdx, i)
 		}
 	}
+	// some of the jobs in flight have started on the cluster (the normal in-flight state):
+	// the job itself writes _log, a restarted mrp reads the state Running from disk
+	var runningIdx []int
+	for _, i := range inflight {
+		if startedMask[i] {
+			os.WriteFile(filepath.Join(dir, fmt.Sprintf("chnk%d", i), "_log"), []byte(""), 0o644)
+			runningIdx = append(runningIdx, i)
+		}
+	}
 	input["in_flight_at_restart"] = inflight
+	input["of_which_running_(_log_written)"] = runningIdx
 	input["waiting_at_restart"] = waitingIdx
 	jm.VerifResetMaxJobs() // cancels the blocked submissions of the old incarnation
 	if !wait(func() bool { return mjParked() == parked0 }) {
@@ -154,7 +164,11 @@ func c12ClusterRound(c *Ctx, round int, n, k int, order []int, finishBefore int,
 	// model: one non-blocking attempt per in-flight job on a fresh semaphore
 	var mops []string
 	for _, i := range inflight {
-		mops = append(mops, fmt.Sprintf("t%d:q:1", i))
+		if startedMask[i] {
+			mops = append(mops, fmt.Sprintf("t%d:r:1", i))
+		} else {
+			mops = append(mops, fmt.Sprintf("t%d:q:1", i))
+		}
 	}
 	modelLen := 0
 	if len(mops) > 0 {
@@ -299,7 +313,18 @@ func runC12Cluster(c *Ctx) {
 			finishBefore = 1
 		}
 		freshJM := c.Rng.Intn(2) == 0
-		v := c12ClusterRound(c, round, n, k, order, finishBefore, freshJM, doneOrder)
+		startedMask := make([]bool, k)
+		anyStarted := false
+		if c.Rng.Intn(4) != 0 {
+			for i := range startedMask {
+				startedMask[i] = c.Rng.Intn(2) == 0
+				anyStarted = anyStarted || startedMask[i]
+			}
+		}
+		if anyStarted {
+			r.hist("cluster_rounds_with_running_jobs_at_restart")
+		}
+		v := c12ClusterRound(c, round, n, k, order, finishBefore, freshJM, doneOrder, startedMask)
 		lowerWaiting := false
 		for pos, ci := range order {
 			if pos >= n {
@@ -310,7 +335,7 @@ func runC12Cluster(c *Ctx) {
 				}
 			}
 		}
-		r.count(fmt.Sprintf("cluster|%d|%d|%v|%d|%v|%v", n, k, order, finishBefore, freshJM, doneOrder), lowerWaiting)
+		r.count(fmt.Sprintf("cluster|%d|%d|%v|%d|%v|%v|%v", n, k, order, finishBefore, freshJM, doneOrder, startedMask), lowerWaiting)
 		r.hist("cluster_restart_rounds")
 		if lowerWaiting {
 			r.hist("cluster_rounds_waiting_chunk_below_submitted_one")
@@ -321,7 +346,7 @@ func runC12Cluster(c *Ctx) {
 		// re-execute alone with doubled waits before believing it
 		saved := c12Wait
 		c12Wait = 2 * saved
-		v2 := c12ClusterRound(c, round+100000, n, k, order, finishBefore, freshJM, doneOrder)
+		v2 := c12ClusterRound(c, round+100000, n, k, order, finishBefore, freshJM, doneOrder, startedMask)
 		c12Wait = saved
 		if v2 == nil || v2.key != v.key {
 			r.note("cluster round %d: %s (%s) did not reproduce when re-executed alone; not reported", round, v.key, v.what)
